@@ -116,13 +116,32 @@ def parse_blocks(text):
     return res, order
 
 
+HANGS_SEEN = 0
 def run_impl(exe, cases, timeout=600, env=None, wrap=None):
     """Run the harness over all cases; a crash (sanitizer abort, signal) is recorded against the case it happened in and
     the run resumes with the next case.  Returns ({case: [I lines]}, {case: abort text})."""
+    global HANGS_SEEN
+    # the harnesses create their scratch files under $TMPDIR: a directory of this run, removed afterwards even if the harness was aborted
+    import tempfile
+    os.makedirs(os.path.join(BUILD, 'tmp'), exist_ok=True)
+    tdir = tempfile.mkdtemp(dir=os.path.join(BUILD, 'tmp'))
+    env = dict(env or ENV, TMPDIR=tdir)
+    try:
+        return _run_impl(exe, cases, timeout, env, wrap)
+    finally:
+        shutil.rmtree(tdir, ignore_errors=True)
+
+def _run_impl(exe, cases, timeout, env, wrap):
+    global HANGS_SEEN
     results, aborts = {}, {}
     todo = list(cases)
+    hangs = 0
+    if HANGS_SEEN >= 3: timeout = min(timeout, 30); hangs = 2          # this process has met non-terminating cases already: do not spend the budget on more of them
     while todo:
-        rc, out, err, dt = sh((wrap or []) + [exe], timeout=timeout, inp='\n'.join(todo) + '\n', env=env)
+        # a case that does not terminate must not cost the whole budget each time: the limit shrinks to what the cases need (a harness
+        # handles thousands of cases per second; valgrind runs pass their own limit) and the run stops after three hangs
+        tmo = timeout if hangs == 0 else min(timeout, max(30, len(todo) // 20))
+        rc, out, err, dt = sh((wrap or []) + [exe], timeout=tmo, inp='\n'.join(todo) + '\n', env=env)
         blocks, order = parse_blocks(out)
         for c in order: results[c] = blocks[c]
         if rc == 0:
@@ -132,10 +151,15 @@ def run_impl(exe, cases, timeout=600, env=None, wrap=None):
             results[bad] = []
         else:
             bad = order[-1]
-        aborts[bad] = ('timeout' if rc == 124 else 'exit %d: ' % rc) + ' | '.join(err.strip().split('\n')[:6])[:600]
+        aborts[bad] = ('timeout (no termination within %ds)' % tmo if rc == 124 else 'exit %d: ' % rc) + ' | '.join(err.strip().split('\n')[:6])[:600]
         results[bad].append('I ABORT')
         idx = todo.index(bad)
         todo = todo[idx + 1:]
+        if rc == 124:
+            hangs += 1; HANGS_SEEN += 1
+            if hangs >= 3:
+                for c in todo: results[c] = ['I NOTRUN']
+                break
     return results, aborts
 
 
@@ -159,7 +183,7 @@ def triples(case, I, MS):
 
 def project(line, segs):
     """keep only the '|'-separated segments a property is about (None = all)"""
-    if segs is None or line in ('-', 'MISSING', 'ABORT') or '|' not in line: return line
+    if segs is None or line in ('-', 'MISSING', 'ABORT', 'NOTRUN') or '|' not in line: return line
     parts = [x.strip() for x in line.split('|')]
     return ' | '.join(parts[k] if k < len(parts) else '?' for k in segs)
 
@@ -188,6 +212,12 @@ def judge(case, I, MS, segs=None):
             if prop_ok and s != '-' and i != s:
                 prop_ok = False; step = k if step is None else step; detail = detail or ('spec', k, i, s)
             break
+        if i == 'NOTRUN': break                      # the run was stopped after repeated hangs: no information about this case
+        if i == 'ABORT' and prop_ok:
+            # a crash, a sanitizer report or a call that does not return is outside every property, whatever the spec oracle has to say
+            prop_ok = False
+            if step is None: step = k
+            detail = ('abort', k, i, s if s != '-' else (m or '-'))
         if s != '-' and i != s and prop_ok:
             prop_ok = False
             if step is None: step = k
@@ -249,6 +279,33 @@ def shrink_history(case, fails_batch, max_rounds=30):
         if nxt is None: break
         ops = nxt
     return mk(ops)
+
+
+def shrink_ops(case, fails_batch, max_rounds=40):
+    """Generalisation to 'HEAD : ops | tail' and 'EQ ... : ops | ops': greedy one-op deletion in every ';'-separated op list of the case
+    (for an EQ case both histories, for the others only the part before the first '|'); hex-encoded file cases are left alone."""
+    head, body = case.split(':', 1)
+    kind = head.split()[0]
+    if kind in ('BIN', 'TXT', 'NOFILE'): return case
+    parts = body.split('|')
+    nlists = 2 if kind == 'EQ' else 1
+    lists = [[o.strip() for o in parts[k].split(';') if o.strip()] if k < len(parts) else [] for k in range(nlists)]
+    def mk(ls):
+        ps = [' ' + ' ; '.join(l) + ' ' for l in ls] + parts[nlists:]
+        return head.rstrip() + ' :' + '|'.join(ps)
+    for _ in range(max_rounds):
+        cands = []
+        for k in range(nlists):
+            for d in range(len(lists[k])):
+                c = [list(l) for l in lists]; del c[k][d]; cands.append(c)
+        if not cands: break
+        res = fails_batch([mk(c) for c in cands])
+        nxt = None
+        for c, r in zip(cands, res):
+            if r: nxt = c; break
+        if nxt is None: break
+        lists = nxt
+    return mk(lists)
 
 
 # ---------------------------------------------------------------- verdicts, evidence
